@@ -1267,7 +1267,6 @@ class _FPCoreCompileInstance(Visitor):
         if isinstance(stmt.target, NamedId):
             raise FPCoreCompileError('Context statements cannot bind to a variable', stmt.target)
 
-        body = self._visit_block(stmt.body, ctx)
         # extract a context value
         match stmt.ctx:
             case ForeignVal():
@@ -1279,16 +1278,83 @@ class _FPCoreCompileInstance(Visitor):
         # convert to properties
         match val:
             case Context():
-                props = FPCoreContext.from_context(val).props
+                props = dict(FPCoreContext.from_context(val).props)
             case FPCoreContext():
-                props = val.props
+                props = dict(val.props)
             case _:
                 raise FPCoreCompileError('Expected `Context` or `FPCoreContext`', val)
 
         # transform properties
         for k in props:
             props[k] = fpc.Data(self._visit_data(props[k]))
-        return fpc.Ctx(props, body)
+
+        if ctx is None:
+            # the block ends the enclosing block (its last statement produces
+            # the value): the annotation scopes over the whole body
+            body = self._visit_block(stmt.body, None)
+            return fpc.Ctx(props, body)
+
+        # An FPCore annotation scopes over an *expression*, an FPy context
+        # over a *statement block*: the statements after the block (already
+        # compiled into `ctx`) must not be rounded under this block's
+        # context.  So the annotated expression only computes the variables
+        # the block (re)defines, and the continuation is nested outside it:
+        #   (let ([x (! <props> <body; x>)]) <ctx>)
+        #   (let* ([t (! <props> <body; (array x ...)>)] [x (ref t 0)] ...) <ctx>)
+        # Only the variables the continuation mentions are passed on (a
+        # superset of the ones it reads): temporaries of the block -- e.g. the
+        # tuple a bundled loop packs its variables into -- stay inside it.
+        changed = sorted(
+            self.def_use.mutated_in(stmt.body) | self.def_use.introed_in(stmt.body)
+        )
+        mentioned = self._mentioned_vars(ctx)
+        names = [str(name) for name in changed if str(name) in mentioned]
+        if len(names) == 0:
+            # (let ([_ (! <props> <body; 0>)]) <ctx>)
+            body = self._visit_block(stmt.body, fpc.Integer(0))
+            return fpc.Let([('_', fpc.Ctx(props, body))], ctx)
+        elif len(names) == 1:
+            body = self._visit_block(stmt.body, fpc.Var(names[0]))
+            return fpc.Let([(names[0], fpc.Ctx(props, body))], ctx)
+        else:
+            tuple_id = str(self.gensym.fresh('t'))
+            body = self._visit_block(stmt.body, fpc.Array(*[fpc.Var(name) for name in names]))
+            bindings: list[tuple[str, fpc.Expr]] = [(tuple_id, fpc.Ctx(props, body))]
+            for i, name in enumerate(names):
+                bindings.append((name, fpc.Ref(fpc.Var(tuple_id), fpc.Integer(i))))
+            return fpc.LetStar(bindings, ctx)
+
+    def _mentioned_vars(self, e: fpc.Expr) -> set[str]:
+        """Names of the variables occurring anywhere in `e`."""
+        names: set[str] = set()
+        stack: list = [e]
+        while stack:
+            cur = stack.pop()
+            match cur:
+                case fpc.Var():
+                    names.add(str(cur.value))
+                case fpc.Ctx():
+                    stack.append(cur.body)
+                case fpc.If():
+                    stack += [cur.cond, cur.then_body, cur.else_body]
+                case fpc.Let():
+                    stack += [val for _, val in cur.let_bindings]
+                    stack.append(cur.body)
+                case fpc.While():
+                    stack.append(cur.cond)
+                    for _, init, update in cur.while_bindings:
+                        stack += [init, update]
+                    stack.append(cur.body)
+                case fpc.For() | fpc.Tensor():
+                    stack += [val for _, val in cur.dim_bindings]
+                    for _, init, update in getattr(cur, 'while_bindings', None) or []:
+                        stack += [init, update]
+                    stack.append(cur.body)
+                case fpc.NaryExpr():
+                    stack += list(cur.children)
+                case _:
+                    pass
+        return names
 
     def _visit_assert(self, stmt: AssertStmt, ctx: None):
         # strip the assertion
